@@ -31,6 +31,8 @@ def getattr_(I, obj, name):
     ctx = I.ctx
     if isinstance(obj, SV):
         obj = ctx.from_val(obj)
+    if isinstance(obj, SV) and isinstance(obj.ty, TAny):
+        obj = ctx.narrow(obj)
     if isinstance(obj, SV) and isinstance(obj.ty, TOpt):
         # Optional[X]: None has no attributes; otherwise the value has shape X
         if ctx.branch(Z.is_none(obj.t), "is-None"):
